@@ -273,3 +273,70 @@ def replay_struct_pattern(order):
 
 def obligations_c06():
     return [Ob('O6.2-struct-pattern-by-name', 'a struct pattern binds and tests fields by name, whatever order they are written in', ob_struct_pattern, ('quick', 'thorough'), 2, {})]
+
+# ----------------------------------------------------------------------------- O13.5 diagnostics of a struct pattern do not depend on hash iteration order
+def ob_struct_pattern_diag_order(r, tier, seed):
+    W = e2.fresh_world(CRATES); W.hash_order = 'symbolic'; tt = W.tt
+    TY = tt.find_adt(['tast', 'Ty'], 'compiler'); HP = [a for a in tt.by_name['Pat'] if a.crate == 'compiler' and 'hir' in '::'.join(a.path)][0]
+    TYPER = tt.find_adt(['typer', 'Typer'], 'compiler'); DI = tt.find_adt(['diagnostics', 'Diagnostics'], 'diagnostics'); DG = tt.find_adt(['diagnostics', 'Diagnostic'], 'diagnostics')
+    SD = tt.find_adt(['env', 'StructDef'], 'compiler'); TI = tt.find_adt(['tast', 'TastIdent'], 'compiler'); GTE = tt.find_adt(['env', 'GlobalTypeEnv'], 'compiler'); TEN = tt.find_adt(['env', 'TypeEnv'], 'compiler')
+    r.bounds = 'struct S { a: int32 }; the pattern `S { a: 1, zeta: 2, alpha: 3, mid: 4 }` (three unknown fields); iteration order of every std HashMap/HashSet is a symbolic permutation'
+    r.assumptions = ['as O6.2', 'oracle: the list of diagnostic messages is the same on every feasible execution']
+    from props import c03 as c03m
+    c3 = c03m.Ctx(W); cur = {}
+    def ov(f, g):
+        if 'TypeckResultsBuilder' in g and 'record_' in g:
+            def m_record(ex, f_, a): return UNIT
+            return m_record
+        return None
+    W.overrides = [ov, c03m.ena_overrides(c3)]
+    for meth in ('record_pat_ty', 'record_local_ty', 'record_struct_pat_elab'):
+        for nm in list(W.methods.get(meth, [])): W.stubs[nm[1]] = lambda ex, a: UNIT
+    def stub_pat(ex, a):
+        pid = a[1]
+        while isinstance(pid, Agg): pid = pid.fields[-1]
+        return Ref(cur['pats'], pid)
+    for nm in list(W.methods.get('pat', [])):
+        if nm[2] is not None and nm[2].self_key == 'HirTable': W.stubs[nm[1]] = stub_pat
+    for nm in list(W.methods.get('display', [])):
+        if nm[2] is not None and nm[2].self_key == 'QualifiedPath': W.stubs[nm[1]] = lambda ex, a: mkstr('S')
+    W.stubs['resolve_type_name'] = lambda ex, a: Agg('tuple', 0, [mkstr('S'), Ref(cur, 'genv')])
+    names = ['a', 'zeta', 'alpha', 'mid']
+    def entry(ex):
+        genv = ex.call('env::GlobalTypeEnv::new_empty', [])
+        te = genv.fields[[f[0] for f in GTE.variants[0].fields].index('type_env')]
+        sm = te.fields[[f[0] for f in TEN.variants[0].fields].index('structs')]
+        ident = lambda n: Agg(TI.key, 0, [mkstr(n)])
+        sm.keys.append(ident('S')); sm.vals.append(Agg(SD.key, 0, [ident('S'), PyVec([]), PyVec([Agg('tuple', 0, [ident('a'), Agg(TY.key, TY.vindex('TInt32'), [])])])]))
+        cur['genv'] = genv
+        QP = tt.find_adt(['hir', 'QualifiedPath'], 'compiler'); HPATH = [a for a in tt.by_name['Path'] if a.crate == 'compiler' and 'hir' in '::'.join(a.path)][0]; HID = tt.find_adt(['hir', 'HirIdent'], 'compiler')
+        qp = Agg(QP.key, 0, [ms.NONE(), Agg(HPATH.key, 0, [PyVec([])])]); hid = lambda n: Agg(HID.key, HID.vindex('Name'), [mkstr(n)])
+        pats = {0: Agg(HP.key, HP.vindex('PStruct'), [qp, PyVec([Agg('tuple', 0, [hid(n), Agg('PatId', 0, [i + 1])]) for i, n in enumerate(names)])])}
+        for i, n in enumerate(names): pats[i + 1] = Agg(HP.key, HP.vindex('PInt'), [mkstr(str(i + 1))])
+        cur['pats'] = pats
+        typer = Agg(TYPER.key, 0, [{'uni': c03m.UTable(), 'constraints': PyVec([]), 'hir_table': Opaque('hir_table'), 'results': Opaque('results')}[f[0]] for f in TYPER.variants[0].fields])
+        PTE = tt.find_adt(['env', 'PackageTypeEnv'], 'compiler')
+        penv = Agg(PTE.key, 0, [{'package': mkstr('Main'), 'current': genv, 'deps': ms.engine.PyMap('hash')}[f[0]] for f in PTE.variants[0].fields])
+        h = {0: typer, 1: penv, 2: Opaque('local_env'), 3: Agg(DI.key, 0, [PyVec([])]), 4: Agg(TY.key, TY.vindex('TStruct'), [mkstr('S')])}
+        ex.call('Typer::check_pat_constructor', [Ref(h, 0), Ref(h, 1), Ref(h, 2), Ref(h, 3), Agg('PatId', 0, [0]), Ref(h, 4)])
+        return tuple(ms.pystr(d.fields[[f[0] for f in DG.variants[0].fields].index('message')]) for d in h[3].fields[0].items)
+    res = e2.explore(r, W, entry, [])
+    outs = set()
+    for p in res:
+        r.cases += 1
+        if p.kind != 'ok': raise Unsupported('check_pat_constructor panicked: %s' % p.value)
+        outs.add(p.value)
+    r.nontrivial = len(res)
+    if len(outs) > 1:
+        src = 'struct S { a: int32 }\nfn f(s: S) -> int32 { match s { S { a: 1, zeta: 2, alpha: 3, mid: 4 } => 1, _ => 2 } }\nfn main() -> unit { () }\n'
+        d = tempfile.mkdtemp(prefix='vf-c13-')
+        try:
+            open(os.path.join(d, 'main.gom'), 'w').write(src); seen = set()
+            for _ in range(30): seen.add(subprocess.run([build.compiler_bin(), 'run', '--dump-tast', os.path.join(d, 'main.gom')], capture_output=True, text=True, timeout=60).stderr)
+        finally: shutil.rmtree(d, ignore_errors=True)
+        ex2 = sorted(outs)[:2]
+        r.findings.append(Finding('diagnostic-text-depends-on-hash-iteration', 'the "unknown fields" diagnostic of a struct pattern lists the fields in HashMap order: %d different texts, e.g. %r vs %r' % (len(outs), [m for m in ex2[0] if 'unknown' in m], [m for m in ex2[1] if 'unknown' in m]), {'texts': [list(o) for o in sorted(outs)][:4]}, len(seen) > 1, '30 runs of the real CLI print %d different diagnostic texts' % len(seen)))
+    else: r.samples.append({'diagnostics': list(next(iter(outs))) if outs else []})
+
+def obligations_c13():
+    return [Ob('O13.5-struct-pattern-diagnostics', 'diagnostics of a struct pattern with unknown fields independent of hash iteration order', ob_struct_pattern_diag_order, ('quick', 'thorough'), 3, {})]
